@@ -561,8 +561,9 @@ def check_tx_steps(chk, n):
                 blk.setfieldval('block_flags', int(blk.getfieldval('block_flags')) | 0x10)
 
     agent = G.boot_agent('dtn://txstep/', path='/txs')
-    agent._tx_chain.append(ChainStep(order=15, name='verif: a step altering blocks', action=step))
-    agent._tx_chain.sort()
+    # in front of the first step of order > 15, WITHOUT re-sorting the chain (the agent's own order is what runs)
+    pos = next((i for i, st in enumerate(agent._tx_chain) if st.order > 15), len(agent._tx_chain))
+    agent._tx_chain.insert(pos, ChainStep(order=15, name='verif: a step altering blocks', action=step))
     if have_sec and 'bpsec' in agent._app:
         try:
             ctx = agent._app['bpsec'].get_context(appsec.BPSEC_COSE_CONTEXT_ID)
